@@ -586,7 +586,9 @@ func reapplyOverwrittenContainers(finalPod *corev1.Pod, originalPod *corev1.Pod,
 		finalPod.Annotations[annotation.ProxyOverrides.Name] = string(js)
 	}
 
-	adjustInitContainerUser(finalPod, originalPod, proxyConfig)
+	// The user's customisation of the sidecar is the override that was just re-applied: on re-injection the
+	// container found in the pod is the result of the previous merge, not what the user wrote.
+	adjustInitContainerUser(finalPod, FindContainer(ProxyContainerName, overrides.AllContainers()), proxyConfig)
 
 	return finalPod, nil
 }
@@ -594,8 +596,7 @@ func reapplyOverwrittenContainers(finalPod *corev1.Pod, originalPod *corev1.Pod,
 // adjustInitContainerUser adjusts the RunAsUser/Group fields and iptables parameter "-u <uid>"
 // in the init/validation container so that they match the value of SecurityContext.RunAsUser/Group
 // when it is present in the custom istio-proxy container supplied by the user.
-func adjustInitContainerUser(finalPod *corev1.Pod, originalPod *corev1.Pod, proxyConfig *meshconfig.ProxyConfig) {
-	userContainer := FindSidecar(originalPod)
+func adjustInitContainerUser(finalPod *corev1.Pod, userContainer *corev1.Container, proxyConfig *meshconfig.ProxyConfig) {
 	if userContainer == nil {
 		// if user doesn't override the istio-proxy container, there's nothing to do
 		return
